@@ -1,0 +1,16 @@
+//go:build verif
+
+package x509
+
+// Accessors for the /verif runtime monitors (build tag "verif" only).
+// No behaviour, no assertions: they expose unexported state read-only.
+
+// VerifFindVerifiedParents exposes findVerifiedParents, the parent lookup used
+// by Certificate.Verify: the indices (into Certificates()) of the pool members
+// the lookup returns for c, the candidate it rejected last (if any) and why.
+func (s *CertPool) VerifFindVerifiedParents(c *Certificate) (parents []int, errCert *Certificate, err error) {
+	return s.findVerifiedParents(c)
+}
+
+// VerifHasSANExtension exposes hasSANExtension.
+func (c *Certificate) VerifHasSANExtension() bool { return c.hasSANExtension() }
